@@ -61,7 +61,7 @@ package content
 //@   modifies VerifyReader.err, VerifyReader.verified@vr, ghost.matched, ghost.atEOF, ghost.digestOK, ghost.delivered, io.LimitedReader.N, elems[byte], alloc
 //@
 //@ func ReadAll
-//@   ensures [C05:nil-means-exact] result1 == nil ==> desc.Size >= 0 && len(result0) == desc.Size && matched(r, desc)
+//@   ensures [C05,C06:nil-means-exact] result1 == nil ==> desc.Size >= 0 && len(result0) == desc.Size && matched(r, desc)
 //@   ensures [C05:negative-size] desc.Size < 0 ==> result1 == ErrInvalidDescriptorSize
 //@   ensures [monotone] forall s io.Reader, d ocispec.Descriptor :: old(matched(s, d)) ==> matched(s, d)
 //@   modifies ghost.matched, ghost.atEOF, ghost.digestOK, ghost.delivered, ghost.readerOver, elems[byte], elems[any], alloc, VerifyReader.err, VerifyReader.verified, io.LimitedReader.N, new VerifyReader.*, new io.LimitedReader.*
